@@ -127,7 +127,11 @@ func C07(c *sim.Ctx) {
 				c.Probe("empty_block")
 			}
 		case op == 7:
-			p.revert()
+			if len(p.m.Chain) >= 2 && t.Draw("revert.races.reader", 3) == 2 {
+				racedReorg(p)
+			} else {
+				p.revert()
+			}
 			reverts++
 		default:
 			p.restart(0, t.Draw("restart.graceful", 2) == 1)
@@ -146,6 +150,60 @@ func C07(c *sim.Ctx) {
 		c.Probe("txkind_" + kind)
 	}
 	c.Nontrivial = len(kinds) >= 3 && len(p.m.Chain) >= 2
+}
+
+// racedReorg: a reader of the head block is overtaken by a reorg. Right after one of the reader's
+// database reads has returned (tape-chosen), the head is reverted and a block of another fork is
+// stored at the same height; then the reader goes on with what it had read. What the overtaken
+// read returns is not judged (the old answer, the new one or an error are all linearisable); what
+// every LATER read returns is: it must describe the chain the node now holds (the per-step checks
+// that follow compare every accessor with the model).
+func racedReorg(p *pair) {
+	c, t := p.c, p.c.T
+	if t.Draw("race.cold", 2) == 1 {
+		// a fresh process: whatever the node caches in memory is cold, so the reader goes to the database
+		p.restart(0, true)
+	}
+	n := p.nodes[0]
+	h := p.m.Head()
+	num := h.B.Number
+	var read func()
+	kind := t.Draw("race.accessor", 4)
+	switch {
+	case kind == 1 && len(h.B.Transactions) > 0:
+		tx := h.B.Transactions[t.Draw("race.tx", len(h.B.Transactions))]
+		read = func() { _, _, _, _ = n.BC.Receipt(tx.Hash()) }
+	case kind == 2 && len(h.B.Transactions) > 0:
+		i := uint64(t.Draw("race.tx", len(h.B.Transactions)))
+		read = func() { _, _ = n.BC.TransactionByBlockNumberAndIndex(num, i) }
+	case kind == 3:
+		read = func() { _, _ = n.BC.BlockByNumber(num) }
+	default:
+		read = func() { _, _ = n.BC.BlockHeaderHashByNumber(num) }
+	}
+	at, reads, done := 1+t.Draw("race.after.read", 4), 0, false
+	n.FDB.Plan.AfterRead = func(string) {
+		reads++
+		if done || reads != at {
+			return
+		}
+		done = true
+		n.FDB.Plan.AfterRead = nil
+		c.Logf("  reorg overtakes the reader after its read %d", reads)
+		p.revert()
+		p.store()
+		c.Fault("reorg_inside_reader")
+	}
+	c.Logf("reader (accessor %d) of head block %d raced by a reorg", kind, num)
+	read()
+	n.FDB.Plan.AfterRead = nil
+	if !done {
+		// the accessor made fewer reads than drawn: plain reorg
+		p.revert()
+		p.store()
+	} else {
+		c.Probe("reader_overtaken_by_reorg")
+	}
 }
 
 // C04: reverting the head exactly undoes a block; forks converge to the same node.
